@@ -170,6 +170,37 @@ XlogxCase == [kind |-> "xlogx", n |-> 1, xstar |-> <<ROne>>, invb2 |-> RZero, li
               starts |-> StartRecsFrom({<<3>>, <<2>>, <<5>>}, 1, <<ROne>>)]
 XlogxCertificate(c) == \A i \in 1..Len(c.starts) : c.starts[i].x[1] > 0
 
+(* lattice  "the unconstrained minimiser lies just outside the feasible set and is reached EXACTLY by the     *)
+(* routine's step lattice": f(x) = w sum_i (x_i - m_i)^2, start x0 (integers), half-space through the midpoint   *)
+(* of x0 and m in the first coordinate (feasible: the start's side).  The sign-based routines move every          *)
+(* coordinate by the same amount: rprop.RunGradient by step, step eta0, step eta0^2, ...; rprop.Run by step eta0, *)
+(* step eta0^2, ... (its first comparison is against a positive placeholder gradient and x0 > m); Adam's first    *)
+(* step is alpha g/(|g| + 1e-8), i.e. alpha up to a relative 1e-8/|g| (|g| = 2 w alpha >= 0.1: the residual        *)
+(* gradient 1e-8 is far below every epsilon).  m is the K-th lattice point (K = 1, 2); TLC certifies the lattice  *)
+(* distance over the rationals and that the lattice points before m are feasible and m is not.  The trial point   *)
+(* m has a gradient below epsilon but violates the constraint: it must never be returned with a nil error.        *)
+LatticePoint(x0, first, eta, j) == \* x0 - first (1 + eta + ... + eta^(j-1))
+  RSub(RInt(x0), RMul(first, RSumSeq([i \in 1..j |-> RPow(eta, i - 1)])))
+LatticeCase(n, x0, routine, variant, step, first, eta, K, w) ==
+  LET m == [i \in 1..n |-> LatticePoint(x0, first, eta, K)]
+      st == {[i \in 1..n |-> x0]}
+  IN [kind |-> "lattice", n |-> n, m |-> m, w |-> w, k |-> [i \in 1..n |-> 0], xstar |-> m,
+      for |-> routine, variant |-> variant, step |-> step, first |-> first, eta |-> eta, latk |-> K, x0 |-> x0,
+      invb2 |-> Rat(1, 4 * w * w), lip2 |-> RInt(4 * w * w), sc |-> TRUE, starts |-> StartRecsFrom(st, n, m)]
+Etas == {<<"2/0.1", RInt(2)>>, <<"1.5/0.8", Rat(3, 2)>>, <<"1.2/0.5", Rat(6, 5)>>}
+LatticeCases ==
+  {LatticeCase(n, 3, "rprop.gradient", e[1], ROne, ROne, e[2], K, 1) : n \in {1, 2}, e \in Etas, K \in {1, 2}}
+  \cup {LatticeCase(n, 3, "rprop", e[1], ROne, e[2], e[2], K, 1) : n \in {1, 2}, e \in Etas, K \in {1, 2}}
+  \cup {LatticeCase(n, 2, "adam.gradient", "", Rat(1, 1000), Rat(1, 1000), ROne, 1, 50) : n \in {1, 2}}
+  \cup {LatticeCase(n, 2, "adam", "0.05", Rat(1, 20), Rat(1, 20), ROne, 1, 1) : n \in {1, 2}}
+LatticeCertificate(c) ==
+  LET h == c.starts[1].half IN
+  /\ Len(c.starts) = 1 /\ h.has /\ h.k = 1 /\ h.side = 1                 \* feasible: x_1 >= t
+  /\ \A i \in 1..c.n : REq(c.m[i], LatticePoint(c.x0, c.first, c.eta, c.latk))          \* m is the K-th lattice point ...
+  /\ RLt(c.m[1], h.t)                                                     \* ... and infeasible,
+  /\ \A j \in 0..(c.latk - 1) : RLt(h.t, LatticePoint(c.x0, c.first, c.eta, j))         \* the lattice points before it are feasible
+  /\ 20 * c.w * c.step.n >= c.step.d                                      \* |g(x0)| = 2 w |x0 - p_1| >= 0.1 for Adam (step = alpha)
+
 DataSets == {<< <<1>> >>, << <<1>>, <<2>> >>, << <<1, 0>>, <<1, 1>> >>, << <<1, -1>>, <<2, 1>>, <<0, 1>> >>}
 Lambdas == {Rat(1, 10), ROne}
 Shifts2 == {<<0, 0>>, <<1, -2>>}
@@ -277,6 +308,7 @@ Init == \/ case \in {q \in QuadCases : WellConditioned(q)}
         \/ case \in RosenCases
         \/ case \in BowlCases
         \/ case = XlogxCase
+        \/ case \in LatticeCases
         \/ case \in PolyCases
         \/ case \in ChanCases
         \/ case = Options
@@ -290,6 +322,7 @@ Certificates ==
     [] case.kind = "channel" -> ChanCertificate(case)
     [] case.kind = "bowl" -> BowlCertificate(case)
     [] case.kind = "xlogx" -> XlogxCertificate(case)
+    [] case.kind = "lattice" -> LatticeCertificate(case)
     [] OTHER -> TRUE
 (* the printed minimiser of the separable / logistic / Rosenbrock families is the planted parameter *)
 Emit == PrintT(ToJson(case))
